@@ -15,6 +15,14 @@ CHECKS = {
    technique="differential + model monitor over an exhaustive operation x option x prior-state x path grid, stored entry read white-box",
    text="Every case of the grid {Put x {-,NX,XX} x {-,EX,PX,EXAT,PXAT}, Expire (s/ms), GetPut, Incr, Decr, IncrByFloat, Lock/Unlock/Lease, Lock on a busy key, multi-key Delete over 1-3 owners} x prior states is executed through each of the six entry paths (embedded owner / non-owner, cluster client, raw RESP owner / non-owner, pipeline) with ReplicaCount 1 and 2, each on a fresh key; the outcome tuple (error class, returned value/count, stored value, expiry class read white-box on the owner) must equal a small model of the documented semantics and be the same on every path.",
    note="Expiry classes use a 3 ms tolerance around [call+d, return+d]; behaviour the statement does not define (Incr on a non-integer, IncrByFloat and expiry) is compared across paths only. One cluster size (3 members, 7 partitions)."),
+ "C01": dict(category="exploration", design="DESIGN.md §3 C01",
+   technique="recorded client-boundary histories checked per key with porcupine (register model with NX/XX), hook jitter, hostile compaction/janitor cadence, race detector on a subset",
+   text="Concurrent histories (12 logical clients over embedded owner/non-owner, cluster client, raw RESP owner/non-owner and pipeline paths; 3 keys; Put/NX/XX/Get/Delete with unique values) are recorded with call/return times on one monotonic clock and every key's sub-history is checked for linearizability against a register model. Configurations cover 1-3 members, ReplicaCount 1-3, partition counts 1/7/13/271, table sizes 512 B / 2 KiB / 1 MiB (multi-table fragments), with background compaction and janitor at a 20 ms cadence in every second configuration and seeded delays injected between the code's own critical sections. The -race binary runs part of the same workload; a race inside the storage engine / fragment map is a violation. Held = every observed history was linearizable.",
+   note="Only the schedules the Go scheduler and the injected jitter produced; histories containing a transport error and checker timeouts are dropped as inconclusive (reported); membership is stable by construction."),
+ "C07": dict(category="exploration", design="DESIGN.md §3 C07",
+   technique="set-inclusion chain oracle over power-of-two deltas, GetPut single-path oracle, real-time order check, hook jitter between read and write, race detector on a subset",
+   text="8/16/24 concurrent callers hit one key once each per round with Incr/Decr/IncrByFloat (distinct power-of-two deltas, so a returned value is the set of calls ordered before it) or GetPut (unique values). Eight assignments of callers to entry points (owner only; cluster client only; one non-owner member; two different non-owner members; non-owner + cluster client; raw RESP non-owner + owner; all six paths mixed) on 1-3 members with ReplicaCount 1-2. The returned values must form a chain under set inclusion containing each caller's own delta, respect real-time order and sum to the final value; GetPut's old->new relation must be a single path over all calls.",
+   note="Stable membership; a delay of 0-2 ms is injected between the read and the write of each atomic operation; rounds with a transport error are inconclusive."),
 }
 
 NOT_BUILT_REASON = "check not built yet (work in progress in this session); not claimed until its monitor is silent on the unchanged tree"
